@@ -5,7 +5,10 @@ CHECK = {'rule': 'rapid-generated signalling programs: context kind in {plain, i
          'runs. Oracle: no call panics (process crashes are attributed to the running case), every appended error is in Errors() by identity, one '
          'cancellation error per Kill, Err/Wait/Close report an error iff one was appended, IsDone/Done set after any stopping call, Wait/Close '
          'return within 20 s. Non-trivial: >=2 goroutines issue stopping calls and at least one rendezvous in the window happened, or late/racing '
-         'children were created.',
+         'children were created. Kind taskclose: 200-1000 rounds per case; the owner registers 1-4 tasks (AddTasks), starts them and calls Close; every '
+         'task signals (AppendError / Kill / Stop, reads in between) after a delay swept over the rounds and then reports DoneTask; Close must return '
+         'within 20 s, report an error iff one was appended or a kill issued, and Errors() must hold every appended error. Non-trivial there: a '
+         'round in which a task signalled while Close was running.',
  'assumptions': ['hook contextscope.stop.gap exists (hit counters in evidence; zero hits degrade the check to plain stress)',
                  'use of a scope after its Close is refused loudly by design and not generated'],
  'essential_labels': {'all': ['rendezvous-in-stop-gap',
@@ -15,11 +18,13 @@ CHECK = {'rule': 'rapid-generated signalling programs: context kind in {plain, i
                               'kind:isolated',
                               'kind:scope',
                               'kind:child',
-                              'kind:isochild', 'childrace:end-landed-during-creation', 'isolated-of-done-parent', 'post-append-on-isolated-and-parent', 'caller-owned-error-list-reused']},
+                              'kind:isochild', 'childrace:end-landed-during-creation', 'taskclose:signal-while-close-is-running', 'isolated-of-done-parent', 'post-append-on-isolated-and-parent', 'caller-owned-error-list-reused']},
  'tiers': {'quick': [{'test': '^TestProp$', 'checks': 5000, 'shards': 6, 'timeout': 240},
-                     {'test': '^TestPropChildRace$', 'checks': 12, 'shards': 2, 'timeout': 240, 'seed_offset': 500}],
+                     {'test': '^TestPropChildRace$', 'checks': 12, 'shards': 2, 'timeout': 240, 'seed_offset': 500},
+                     {'test': '^TestPropTaskClose$', 'checks': 40, 'shards': 2, 'timeout': 240, 'seed_offset': 700}],
            'thorough': [{'test': '^TestProp$', 'checks': 30000, 'shards': 16, 'timeout': 3000},
-                        {'test': '^TestPropChildRace$', 'checks': 150, 'shards': 8, 'timeout': 3000, 'seed_offset': 500}]}}
+                        {'test': '^TestPropChildRace$', 'checks': 150, 'shards': 8, 'timeout': 3000, 'seed_offset': 500},
+                        {'test': '^TestPropTaskClose$', 'checks': 600, 'shards': 8, 'timeout': 3000, 'seed_offset': 700}]}}
 
 TEXT = {'technique': 'schedule-directed property testing (rapid): generated multi-goroutine signalling programs on five context/scope kinds with a '
               'generated rendezvous plan for the verif yield point inside Stop, plus late/racing child creation and a swept two-goroutine race of child creation against the end of the parent (delay sweep over the duration of NewChild, thousands of rounds per case); invariants over the final state',
